@@ -166,23 +166,28 @@ Section FractionQ.
   Variable pinterp : P -> P -> Q -> P.
   Variable panned : A -> P -> A.
   Variable audio : list A.
-  Variables psize land : nat -> nat.
+  Variable D : Type.
+  Variable dpos : D -> nat.
+  Variable dsize : D -> nat.
+  Variable dnext : D -> D.
+  Variable dseek : D -> nat -> D.
+  Variable derr : D -> bool.
   Variable cap : Z.
 
   Definition dts_nonneg (evs : list (event Q V P)) : Prop :=
     forall len dt i, In (EvProcess len dt i) evs -> 0 <= dt.
   Definition pos_frac_ok (o : obs Q A) : Prop :=
     match o with OPos _ _ _ fp _ => frac_ok fp | OOut _ _ _ => True end.
-  Definition w_ok (w : stream Q A V P) : Prop :=
+  Definition w_ok (w : stream Q A V P D) : Prop :=
     frac_ok (y_fpos (z_core (w_sound w))) /\ (0 <= y_sr (z_core (w_sound w)))%Z.
 
   Lemma decode_w_ok : forall w w', w_ok w ->
-    decode_step A azero V P fuel audio psize land cap w = Ok w' -> w_ok w'.
+    decode_step A azero V P fuel audio D dpos dsize dnext dseek derr cap w = Ok w' -> w_ok w'.
   Proof.
     intros w w' Hok H. unfold decode_step in H. destruct (q_status (w_prod w)); [|inversion H; subst; exact Hok].
     destruct (h_mirror (z_shell (w_sound w)) =? 6)%Z; [inversion H; subst; exact Hok|].
     destruct (cap <=? _)%Z; [inversion H; subst; exact Hok|].
-    destruct (q_frame_at_index A azero fuel audio psize land (w_prod w) _) as [[fr dec]| |]; cbn [obind] in H; try discriminate.
+    destruct (q_frame_at_index A azero fuel audio D dpos dsize dnext dseek derr (w_prod w) _) as [[fr dec]| |]; cbn [obind] in H; try discriminate.
     destruct fr as [frame|]; [|inversion H; subst; exact Hok].
     destruct (C04.Transport.increment_position fuel _ _) as [t| |]; cbn [obind] in H; try discriminate.
     inversion H; subst; exact Hok.
@@ -219,9 +224,9 @@ Section FractionQ.
     rewrite Hu1, Hu2. split; [reflexivity|]. split; [reflexivity|]. intros Hf; exact Hf.
   Qed.
 
-  Lemma run_frac : forall evs (w : stream Q A V P) ys st,
+  Lemma run_frac : forall evs (w : stream Q A V P D) ys st,
     w_ok w -> dts_nonneg evs ->
-    run_stream powf A azero F interp cast ascale V vinterp silence identity amp P pinterp panned fuel audio psize land cap w evs
+    run_stream powf A azero F interp cast ascale V vinterp silence identity amp P pinterp panned fuel audio D dpos dsize dnext dseek derr cap w evs
       = Ok (ys, st) ->
     Forall pos_frac_ok ys.
   Proof.
@@ -229,11 +234,11 @@ Section FractionQ.
     - cbn [run_stream] in H. inversion H; constructor.
     - assert (Hdts' : dts_nonneg evs) by (intros len dt i Hin; apply (Hdts len dt i); right; exact Hin).
       cbn [run_stream] in H. destruct e as [|c|len dt i]; cbn [stream_step] in H.
-      + destruct (decode_step A azero V P fuel audio psize land cap w) as [w'| |] eqn:Ed; cbn [obind] in H; try discriminate.
-        destruct (run_stream _ _ _ _ _ _ _ _ _ _ _ _ _ _ _ _ _ _ _ _ w' evs) as [[os s2]| |] eqn:Er; cbn [obind] in H; try discriminate.
+      + destruct (decode_step A azero V P fuel audio D dpos dsize dnext dseek derr cap w) as [w'| |] eqn:Ed; cbn [obind] in H; try discriminate.
+        destruct (run_stream _ _ _ _ _ _ _ _ _ _ _ _ _ _ _ _ _ _ _ _ _ _ _ _ w' evs) as [[os s2]| |] eqn:Er; cbn [obind] in H; try discriminate.
         inversion H; subst. cbn [app]. exact (IH _ _ _ (decode_w_ok _ _ Hok Ed) Hdts' Er).
       + destruct (stream_on_start A V silence identity P (w_sound w) c) as [z' o] eqn:Es. cbn [obind] in H.
-        destruct (run_stream _ _ _ _ _ _ _ _ _ _ _ _ _ _ _ _ _ _ _ _ _ evs) as [[os s2]| |] eqn:Er; cbn [obind] in H; try discriminate.
+        destruct (run_stream _ _ _ _ _ _ _ _ _ _ _ _ _ _ _ _ _ _ _ _ _ _ _ _ _ evs) as [[os s2]| |] eqn:Er; cbn [obind] in H; try discriminate.
         inversion H; subst. cbn [app]. destruct Hok as [Hf Hsr].
         destruct (on_start_shape _ _ _ _ Es) as (Hu1 & Hu2 & Ho).
         constructor; [exact (Ho Hf)|].
@@ -242,7 +247,7 @@ Section FractionQ.
         exact (IH _ _ _ Hok' Hdts' Er).
       + destruct (stream_process powf A azero F interp cast ascale V vinterp identity amp P pinterp panned fuel (w_sound w) len dt i)
           as [[[z' o] s1]| |] eqn:Ep; cbn [obind] in H; try discriminate.
-        destruct (run_stream _ _ _ _ _ _ _ _ _ _ _ _ _ _ _ _ _ _ _ _ _ evs) as [[os s2]| |] eqn:Er; cbn [obind] in H; try discriminate.
+        destruct (run_stream _ _ _ _ _ _ _ _ _ _ _ _ _ _ _ _ _ _ _ _ _ _ _ _ _ evs) as [[os s2]| |] eqn:Er; cbn [obind] in H; try discriminate.
         inversion H; subst. cbn [app]. destruct Hok as [Hf Hsr].
         assert (Hdt : 0 <= dt) by (apply (Hdts len dt i); left; reflexivity).
         destruct (process_w_ok _ _ _ _ _ _ _ Hf Hsr Hdt Ep) as (Hf' & Hsr' & Ho).
@@ -290,6 +295,14 @@ Section PosQ.
   Variable slice : option (Z * Z).
   Variable g : settings Q V P.
   Variable B : Z.
+  Variable EP : nat.
+  Variable D : Type.
+  Variable dpos : D -> nat.
+  Variable dsize : D -> nat.
+  Variable dnext : D -> D.
+  Variable dseek : D -> nat -> D.
+  Variable derr : D -> bool.
+  Variable d0 : D.
 
   (** two position reports of the same callback: less than one frame apart, as long as the ring holds the frame
       being heard *)
@@ -301,32 +314,34 @@ Section PosQ.
     | _, _ => False
     end.
 
-  Lemma simulation_Q : wf_config A azero V P fuel audio sr slice g B -> 0 < sr ->
-    forall (psize land : nat -> nat) (evs : list (event Q V P)),
+  Lemma simulation_Q : wf_config A azero V P fuel audio sr slice g B EP -> 0 < sr ->
+    ProofsDecoder.conforming A audio D dpos dsize dnext dseek derr EP ->
+    forall (evs : list (event Q V P)),
       rates_nonneg powf V P g evs -> dts_nonneg V P evs ->
       exists x0 w0,
         static_new A azero V silence identity P pcenter fuel sr (audio_source A azero audio) slice g = Ok x0 /\
-        stream_new A azero V silence identity P pcenter audio land sr slice g = Ok w0 /\
+        stream_new A azero V silence identity P pcenter audio D dpos dseek d0 sr slice g = Ok w0 /\
         sh_pos (x_core x0) = y_pos (z_core (w_sound w0)) /\ h_mirror (x_shell x0) = h_mirror (z_shell (w_sound w0)) /\
         forall ys,
           run_stream powf A azero F interp cast ascale V vinterp silence identity amp P pinterp panned fuel
-                     audio psize land cap w0 evs = Ok (ys, false) ->
+                     audio D dpos dsize dnext dseek derr cap w0 evs = Ok (ys, false) ->
           exists xs,
             run_static powf A azero F interp cast ascale V vinterp silence identity amp P pinterp panned fuel x0 evs = Ok xs /\
             Forall2 pos_close xs ys.
   Proof.
-    intros WF Hsr psize land evs Hrates Hdts.
+    intros WF Hsr Hconf evs Hrates Hdts.
     destruct (simulation powf A azero F interp cast ascale V vinterp silence identity amp P pinterp pcenter panned fuel
-                         audio cap sr slice g B WF psize land evs Hrates) as (x0 & w0 & Hx & Hw & Hp0 & Hs0 & Hsim).
+                         audio cap sr slice g B EP WF D dpos dsize dnext dseek derr d0 Hconf evs Hrates)
+      as (x0 & w0 & Hx & Hw & Hp0 & Hs0 & Hsim).
     exists x0, w0. split; [exact Hx|]. split; [exact Hw|]. split; [exact Hp0|]. split; [exact Hs0|]. intros ys Hrun.
     destruct (Hsim ys Hrun) as (xs & Hxs & Hrel). exists xs. split; [exact Hxs|].
-    assert (Hok : w_ok A V P w0).
+    assert (Hok : w_ok A V P D w0).
     { unfold stream_new in Hw.
       destruct (match slice with Some (st, e) => sub_chk e st | None => Ok (Z.of_nat (length audio)) end) as [n| |];
         cbn [obind] in Hw; try discriminate.
       inversion Hw; subst w0. split; cbn [w_sound z_core y_fpos y_sr]; [split; [apply Qle_refl | reflexivity] | lia]. }
     pose proof (run_frac A azero F interp cast fuel powf ascale V vinterp silence identity amp P pinterp panned audio
-                         psize land cap evs w0 ys false Hok Hdts Hrun) as Hfrac.
+                         D dpos dsize dnext dseek derr cap evs w0 ys false Hok Hdts Hrun) as Hfrac.
     clear Hrun Hsim Hxs. revert Hfrac. induction Hrel as [|x y xs ys Hxy _ IH]; intros Hfrac; [constructor|].
     inversion Hfrac as [|? ? Hy Hys]; subst. constructor; [|exact (IH Hys)].
     destruct Hxy as [frames st fin | px py st idx cur fp avail Hpx Hpy Hc].
